@@ -9,6 +9,10 @@
    c2/xz_key_no_implant.go       keyListenerInit, keyCryptAndUpdate, keyListenerRegenerate
    c2/session.go session()       order: next() ; KeyCrypt ; write (fail => keyCheckRevert) ;
                                  read (fail => return) ; KeyCrypt ; keyCheckSync ; receive
+   c2/session.go next()          a Packet with FlagCrypt is returned alone even when the send queue is
+                                 not empty (fix 'rekey-merged-into-batch'); `merge = true` is the code
+                                 BEFORE that fix (pick() returned the announcement, a concurrent Write
+                                 made len(s.send) > 0, nextPacket() put both into one Multi container)
    c2/listener.go talk() + c2/channel.go handle()
                                  order: conn.keys := COPY of s.keys ; keyCryptAndUpdate(decrypt with
                                  the old key, regenerate on FlagCrypt) ; process ; reply.KeyCrypt(conn.keys)
@@ -63,6 +67,8 @@ Section Machine.
   Variables priv point : Type.
   Variable pub : priv -> point.
   Variable dh : priv -> point -> list Z.
+  (* false: the code as it is now; true: next() as it was before the fix (kept for the regression witness) *)
+  Variable merge : bool.
 
   (* client Session: keys.Private, keys.Public (its own public until the server's arrives),
      keys.share, keysNext (only its private half is ever used) *)
@@ -92,7 +98,9 @@ Section Machine.
   | HelloReply                 (* the client reads SvComplete|FlagCrypt: keyCheckSync, keySessionSync *)
   | RekeySend (k : priv)       (* keyNextSync drew a re-key: keysNext := k, announcement written under the current key *)
   | DataSend (p : list Z)      (* an ordinary Packet with payload p written under the current key *)
-  | BatchSend (k : priv) (p : list Z)  (* keyNextSync's Packet merged by nextPacket with a queued data Packet *)
+  | BatchSend (k : priv) (p : list Z)  (* keyNextSync drew a re-key while a data Packet p got queued behind it:
+                                          now the announcement travels alone (p stays queued, the harness sends it
+                                          with the next DataSend); with merge = true nextPacket() merged both *)
   | RekeyRecv (q : list Z)     (* the server handles the Packet in flight (talk/handle); q = payload it has queued for the client *)
   | ReplyRecv                  (* the client reads an ordinary reply: KeyCrypt with s.keys, THEN keyCheckSync *)
   | WriteFail                  (* writePacket failed: keyCheckRevert *)
@@ -163,8 +171,11 @@ Section Machine.
       if waiting s then s else
       let c := cl s in
       match c_next c with
-      | Some _ => send (UData (xor_op p (c_share c))) c s
-      | None => send (UBatch (xor_op p (c_share c)) (c_share c)) (mkC (c_priv c) (c_pub c) (c_share c) (Some k)) s
+      | Some _ => send (UData (xor_op p (c_share c))) c s    (* no announcement was drawn: p is an ordinary Packet *)
+      | None =>
+        let c' := mkC (c_priv c) (c_pub c) (c_share c) (Some k) in
+        if merge then send (UBatch (xor_op p (c_share c)) (c_share c)) c' s
+        else send (URekey (pub k) (c_share c)) c' s
       end
     | WriteFail =>
       if waiting s && is_some (upw s)
@@ -204,12 +215,34 @@ Section Machine.
   Definition init (k0 s0 : priv) : st :=
     mkSt (mkC k0 (pub k0) zero_share None) (mkS false s0 zero_share) None None false [] [].
 
-  (* histories in which no reply is lost and no re-key is batched *)
+  (* ---- which events the agreement theorem has to exclude ------------------------------- *)
+  (* a lost reply does harm only while a key announcement is unacknowledged: a re-key is pending
+     (keysNext <> nil), or the reply that gets lost is the SvComplete carrying the server key *)
+  Definition harmful_loss (s : st) : bool :=
+    is_some (c_next (cl s)) || match dnw s with Some (DComplete _) => true | _ => false end.
+  Definition ok_event (e : event) (s : st) : bool :=
+    match e with
+    | ReplyLost => negb (waiting s && harmful_loss s)
+    | BatchSend _ _ => negb merge
+    | _ => true
+    end.
+  (* every event of h is admissible in the state in which it happens *)
+  Fixpoint safe (h : list event) (s : st) : bool :=
+    match h with
+    | [] => true
+    | e :: h' => ok_event e s && safe h' (step e s)
+    end.
+  (* the coarser, state-independent condition: no reply is lost at all *)
   Definition lossless_event (e : event) : bool :=
-    match e with ReplyLost | BatchSend _ _ => false | _ => true end.
+    match e with ReplyLost => false | BatchSend _ _ => negb merge | _ => true end.
   Definition lossless (h : list event) : bool := forallb lossless_event h.
 
   Definition agree (s : st) : Prop := c_share (cl s) = s_share (sv s).
+  (* the two ends agree and nothing is in flight: the client is between two exchanges, the server
+     knows it, no re-key is pending, the shares are equal, the client holds the server's public key *)
+  Definition settled (s : st) : Prop :=
+    waiting s = false /\ upw s = None /\ dnw s = None /\ s_reg (sv s) = true /\
+    c_next (cl s) = None /\ c_share (cl s) = s_share (sv s) /\ c_pub (cl s) = pub (s_priv (sv s)).
 End Machine.
 
 Arguments mkC {priv point}.
@@ -257,8 +290,12 @@ Arguments key_session_generate {priv point}.
 Arguments key_session_sync {priv point}.
 Arguments send {priv point}.
 Arguments agree {priv point}.
+Arguments settled {priv point}.
 Arguments lossless {priv}.
 Arguments lossless_event {priv}.
+Arguments harmful_loss {priv point}.
+Arguments ok_event {priv point}.
+Arguments safe {priv point}.
 
 (* ---- a toy commutative key agreement, for witnesses and non-vacuity ---------- *)
 (* private = public = an integer; the "shared point" of a and b has the byte (a*b) mod 256
@@ -292,7 +329,7 @@ Fixpoint run_rounds (tab : list (Z * Z * list Z)) (s : st Z Z) (rs : list (list 
   match rs with
   | [] => true
   | (evs, o) :: rest =>
-    let s1 := run (fun x => x) (tab_dh tab) evs (clear_seen s) in
+    let s1 := run (fun x => x) (tab_dh tab) false evs (clear_seen s) in
     obs_ok s1 o && run_rounds tab s1 rest
   end.
 
